@@ -174,7 +174,8 @@ def clientHello {Pat : Type} (E : Env Pat) (tcp : Bool) (port : Option Nat) (dc 
 abbrev Addr := Bytes × Nat
 
 def colon : UInt8 := 0x3a
-def decimal (n : Nat) : Bytes := strBytes (toString n)
+/-- decimal digits of `n` (what `str(port)` gives) -/
+def decimal (n : Nat) : Bytes := (Nat.toDigits 10 n).map (fun ch => UInt8.ofNat ch.toNat)
 /-- `f"{host}:{port}"` -/
 def hostPort (h : Bytes) (p : Nat) : Bytes := h ++ colon :: decimal p
 
@@ -195,7 +196,7 @@ structure Cfg (Pat : Type) where
   address : Option Addr            -- server.address
   clientSni : Option Bytes         -- client.sni
 
-def wgDns : Addr := (strBytes "10.0.0.53", 53)
+def wgDns : Addr := ([0x31, 0x30, 0x2e, 0x30, 0x2e, 0x30, 0x2e, 0x35, 0x33], 53)     -- ("10.0.0.53", 53)
 
 def optList {α : Type} : Option α → List α
   | some a => [a]
@@ -375,7 +376,8 @@ inductive Phase
   | intercepted               -- a non-relay stack was instantiated (outside this model)
   | connecting                -- relay layer waits for OpenConnection; events pile up in its pause queue
   | relay
-  | done
+  | done                      -- relay layer finished after the connections closed
+  | failed                    -- OpenConnection failed: client closed, nothing relayed
   deriving Repr, DecidableEq
 
 /-- `ConnectionState` as the server loop maintains it -/
@@ -481,7 +483,7 @@ def step {Pat : Type} (E : Env Pat) (c : NCfg Pat) (s0 : Sess) (e : Ev) : Sess :
     | .connOk => relayAll { s with phase := .relay, queue := [], server := ⟨true, true⟩, connected := true } s.queue
     | .connErr =>
       { (s.emit ((if s.flow then [Out.hook 3] else []) ++ [.close false false])) with
-          phase := .done, queue := [], client := ⟨false, false⟩ }
+          phase := .failed, client := ⟨false, false⟩ }
     | _ => { s with queue := s.queue ++ [e] }
   | .relay => relayEv s e
   | _ => s
